@@ -50,6 +50,8 @@ def PcWF (cfg : Cfg) : Pc → Prop
   | .out _ (.slicerGap rest offs base _) => ChainOK offs base rest
   | .nap _ (.slicerGap rest offs base _) => ChainOK offs base rest
   | .nap _ (.bwInstal p _) => match cfg with | .bandwidth r => r * 100 < p.data.length | _ => True
+  | .idleT _ => match cfg with | .timeout _ => True | _ => False
+  | .out _ (.limitAfter _) => match cfg with | .limitData _ => True | _ => False
   | .crash _ => False
   | _ => True
 
@@ -70,7 +72,7 @@ theorem chain_mono_le {offs : List (Int × Int)} {s e : Int} (hc : Chain s e off
 concatenate to the old rest, and the remaining chain is well-formed. -/
 theorem slicerSend_ok (rest : Bytes) (base ts : Int) (offs : List (Int × Int))
     (h : ChainOK offs base rest) :
-    (slicerSend rest base ts offs).held = rest ∧ PcWF (.slicer 0 0 0) (slicerSend rest base ts offs) ∧
+    (slicerSend rest base ts offs).held = rest ∧ (∀ cfg, PcWF cfg (slicerSend rest base ts offs)) ∧
     (∀ w, slicerSend rest base ts offs ≠ .crash w) := by
   cases offs with
   | nil => simp only [ChainOK] at h; subst h; simp [slicerSend, Pc.held, PcWF]
@@ -93,11 +95,12 @@ theorem slicerSend_ok (rest : Bytes) (base ts : Int) (offs : List (Int × Int))
     have hslice : slice rest (a - a) (b - a) = some (rest.take (b - a).toNat) := by
       unfold slice
       have : (0:Int) ≤ a - a ∧ a - a ≤ b - a ∧ b - a ≤ (rest.length : Int) := ⟨by omega, by omega, by omega⟩
-      simp [this]
+      simp [this, hab]
     simp only [slicerSend, hslice]
     refine ⟨?_, ?_, by intro w hw; cases hw⟩
     · simp [Pc.held, Next.held]
-    · simp only [PcWF]
+    · intro cfg
+      simp only [PcWF]
       cases offs with
       | nil =>
         simp only [Chain] at hc
@@ -114,5 +117,179 @@ theorem slicerSend_ok (rest : Bytes) (base ts : Int) (offs : List (Int × Int))
         have : b + (↑rest.length - (b - a)) = a + ↑rest.length := by omega
         rw [this]
         exact hc.2
+
+end Toxi.Toxic
+
+namespace Toxi.Toxic
+open Toxi.Stream (Bytes)
+
+/-- How an event may change what a data-preserving stage holds. -/
+def Conserves (pc pc' : Pc) : Event → Prop
+  | .input (some c) _ _ => pc.held = [] ∧ pc'.held = c.data
+  | .input none _ _ => pc.held = [] ∧ pc'.held = []
+  | .taken _ => ∃ c, pc.offer = some c ∧ pc.held = c.data ++ pc'.held
+  | .timer _ => pc'.held = pc.held ∨ (∃ c d, pc = .flush c d ∧ pc'.held = [])
+  | .interrupt _ => pc'.held = pc.held
+
+theorem bwLoop_ok (r : Int) (h : BwOK r) (p : Chunk) (carry now : Int) :
+    (bwLoop r p carry now).held = p.data ∧ PcWF (.bandwidth r) (bwLoop r p carry now) := by
+  have hw : wrap64 (r * 100) = r * 100 := wrap64_id _ (by have := h.pos; omega) h.nowrap
+  unfold bwLoop
+  rw [hw]
+  split
+  · rename_i hlt; exact ⟨rfl, by simpa [PcWF] using hlt⟩
+  · exact ⟨rfl, by simp [PcWF]⟩
+
+/-- **Stage conservation.** For every data-preserving toxic with valid attributes, every
+event that the stage can receive at a well-formed program counter leads to a well-formed
+program counter (no panic) and changes the held bytes only as `Conserves` allows: a
+received chunk is appended whole, a completed send removes exactly the offered chunk from
+the front, timers and interrupts move nothing — except the deliberate 5 s give-up of
+`WriteOutput`. -/
+theorem step_conserves (cfg : Cfg) (hs : Safe cfg) (st : StubSt) (pc : Pc) (ev : Event)
+    (st' : StubSt) (pc' : Pc) (hwf : PcWF cfg pc)
+    (h : step .fixed cfg true st pc ev = some (st', pc')) :
+    PcWF cfg pc' ∧ Conserves pc pc' ev := by
+  cases pc with
+  | ret => cases ev <;> simp [step] at h
+  | crash w => simp [PcWF] at hwf
+  | hold d =>
+    cases ev <;> simp [step] at h
+    obtain ⟨_, rfl⟩ := h
+    simp [PcWF, Conserves, Pc.held]
+  | flush c d =>
+    cases ev <;> simp [step] at h
+    · obtain ⟨_, rfl⟩ := h
+      exact ⟨by simp [PcWF], Or.inr ⟨c, d, rfl, rfl⟩⟩
+    · obtain ⟨_, rfl⟩ := h
+      exact ⟨by simp [PcWF], c, rfl, by simp [Pc.held]⟩
+  | idleT d =>
+    cases cfg <;> simp [PcWF] at hwf
+    simp [Safe] at hs
+  | idle carry =>
+    cases ev with
+    | timer now => simp [step] at h
+    | taken now => simp [step] at h
+    | interrupt now =>
+      simp [step] at h; obtain ⟨_, rfl⟩ := h
+      simp [PcWF, Conserves, Pc.held]
+    | input c now draws =>
+      cases c with
+      | none =>
+        cases cfg <;> simp [step, Safe] at h hs <;> (obtain ⟨_, rfl⟩ := h) <;>
+          simp [PcWF, Conserves, Pc.held, Wake.held]
+      | some c =>
+        simp only [step, if_true] at h
+        cases cfg with
+        | noop => simp [onChunk] at h; obtain ⟨_, rfl⟩ := h; simp [PcWF, Conserves, Pc.held, Next.held]
+        | slowClose d => simp [onChunk] at h; obtain ⟨_, rfl⟩ := h; simp [PcWF, Conserves, Pc.held, Next.held]
+        | latency l j =>
+          simp only [Safe] at hs
+          simp only [onChunk] at h
+          by_cases hj : j > 0
+          · have hw : wrap64 (j * 2) = j * 2 := wrap64_id _ (by omega) hs
+            have hn : ¬ (j * 2 ≤ 0) := by omega
+            simp only [hj, if_true, hw, hn, if_false] at h
+            cases draws <;> (simp at h; obtain ⟨_, rfl⟩ := h; simp [PcWF, Conserves, Pc.held, Wake.held])
+          · simp only [hj, if_false] at h
+            simp at h; obtain ⟨_, rfl⟩ := h; simp [PcWF, Conserves, Pc.held, Wake.held]
+        | bandwidth r =>
+          simp only [Safe] at hs
+          simp only [onChunk] at h
+          simp at h
+          obtain ⟨_, rfl⟩ := h
+          have := bwLoop_ok r hs c (if r ≤ 0 then 0 else carry + Int.tdiv ((c.data.length : Int) * ms) r) now
+          exact ⟨this.2, rfl, this.1⟩
+        | slicer a v d =>
+          simp only [Safe] at hs
+          simp only [onChunk] at h
+          obtain ⟨offs, rest, hch, hchain, hp⟩ := C12_terminates a v hs c.data.length draws
+          simp only [hch] at h
+          simp at h
+          obtain ⟨_, rfl⟩ := h
+          have hok : ChainOK offs 0 c.data := by
+            cases offs with
+            | nil => simp [Chain] at hchain
+            | cons q offs =>
+              simp only [ChainOK]
+              refine ⟨by simpa using hchain, ?_⟩
+              intro p hpm
+              exact (hp p hpm).2.2
+          have := slicerSend_ok c.data 0 c.ts offs hok
+          exact ⟨this.2.1 _, rfl, this.1⟩
+        | timeout t => simp [Safe] at hs
+        | limitData n => simp [Safe] at hs
+        | resetPeer t => simp [Safe] at hs
+  | out c k =>
+    cases ev with
+    | timer now => simp [step] at h
+    | interrupt now => simp [step] at h
+    | input c' now draws => simp [step] at h
+    | taken now =>
+      simp only [step, if_true] at h
+      cases k with
+      | toIdle carry => simp at h; obtain ⟨_, rfl⟩ := h; exact ⟨by simp [PcWF], c, rfl, by simp [Pc.held, Next.held]⟩
+      | toRet => simp at h; obtain ⟨_, rfl⟩ := h; exact ⟨by simp [PcWF], c, rfl, by simp [Pc.held, Next.held]⟩
+      | slicerGap rest offs base ts =>
+        cases cfg <;> simp at h
+        obtain ⟨_, rfl⟩ := h
+        exact ⟨by simpa [PcWF] using hwf, c, rfl, by simp [Pc.held, Next.held, Wake.held]⟩
+      | bwLoop p carry =>
+        cases cfg <;> simp at h
+        rename_i r
+        obtain ⟨_, rfl⟩ := h
+        simp only [Safe] at hs
+        have := bwLoop_ok r hs p carry now
+        exact ⟨this.2, c, rfl, by rw [this.1]; rfl⟩
+      | limitAfter n =>
+        cases cfg <;> simp [PcWF] at hwf
+        simp [Safe] at hs
+  | nap d w =>
+    cases ev with
+    | taken now => cases w <;> simp [step] at h
+    | input c' now draws => cases w <;> simp [step] at h
+    | timer now =>
+      cases w with
+      | latency c sl dl =>
+        simp [step] at h; obtain ⟨_, rfl⟩ := h
+        exact ⟨by simp [PcWF], Or.inl (by simp [Pc.held, Next.held, Wake.held])⟩
+      | bwFinal p carry start =>
+        simp [step] at h; obtain ⟨_, rfl⟩ := h
+        exact ⟨by simp [PcWF], Or.inl (by simp [Pc.held, Next.held, Wake.held])⟩
+      | slowClose =>
+        simp [step] at h; obtain ⟨_, rfl⟩ := h
+        exact ⟨by simp [PcWF], Or.inl (by simp [Pc.held, Wake.held])⟩
+      | slicerGap rest offs base ts =>
+        simp [step] at h; obtain ⟨_, rfl⟩ := h
+        have hok : ChainOK offs base rest := by simpa [PcWF] using hwf
+        have := slicerSend_ok rest base ts offs hok
+        exact ⟨this.2.1 _, Or.inl this.1⟩
+      | bwInstal p carry =>
+        cases cfg <;> simp [step] at h
+        rename_i r
+        simp only [Safe] at hs
+        have hw : wrap64 (r * 100) = r * 100 := wrap64_id _ (by have := hs.pos; omega) hs.nowrap
+        have hlen : r * 100 < p.data.length := by simpa [PcWF] using hwf
+        rw [hw] at h
+        have h1 : slice p.data 0 (r * 100) = some (p.data.take (r * 100).toNat) := by
+          unfold slice
+          have : (0:Int) ≤ 0 ∧ (0:Int) ≤ r * 100 ∧ r * 100 ≤ (p.data.length : Int) := ⟨by omega, by have := hs.pos; omega, by omega⟩
+          simp [this]
+        have h2 : slice p.data (r * 100) p.data.length = some (p.data.drop (r * 100).toNat) := by
+          unfold slice
+          have : (0:Int) ≤ r * 100 ∧ r * 100 ≤ (p.data.length : Int) ∧ (p.data.length : Int) ≤ p.data.length :=
+            ⟨by have := hs.pos; omega, by omega, by omega⟩
+          simp only [this, and_self, if_true]
+          congr 1
+          apply List.take_of_length_le
+          simp
+          omega
+        simp only [h1, h2] at h
+        simp at h
+        obtain ⟨_, rfl⟩ := h
+        exact ⟨by simp [PcWF], Or.inl (by simp [Pc.held, Next.held, Wake.held])⟩
+    | interrupt now =>
+      cases w <;> simp [step] at h <;> (obtain ⟨_, rfl⟩ := h) <;>
+        simp [PcWF, Conserves, Pc.held, Next.held, Wake.held]
 
 end Toxi.Toxic
